@@ -19,6 +19,8 @@ Definition q_analyze := power_analyze Qc 0%Qc 1%Qc Qcplus Qcmult Qcinv.
 Definition q_pspace := pspace Qc 0%Qc 1%Qc Qcplus Qcmult.
 Definition q_powop := power_operator_times Qc 0%Qc Qcmult.
 
+Definition q_powop_apply := power_operator_apply Qc 0%Qc Qcmult Qcdiv.
+
 Fixpoint eq_list (a b : list Qc) : bool :=
   match a, b with
   | [], [] => true
